@@ -215,26 +215,22 @@ theorem code_deactivate (r : Spec.Activation.Rule ℚ) (σ₀ : Gen.Code.Rule_de
   Op.Activation.code_deactivate r σ₀
 
 /-- **Tie A.**  `Rule.activate_with` on a rule with weight `w` whose antecedent is the loaded tree `a` (evaluated by the
-    translated `Antecedent.activation_degree`, `ante`): a rule that is not loaded raises `RuntimeError`;
-    a loaded one - when every variable of the antecedent has a term - raises what the model `Op.activateWith` predicts and
-    otherwise stores and returns the model's value `w × degree`, which is what `Op.Activation.activateWith` copies from
-    the field `degree` of its rule; when a variable has lost its terms it passes on the `ValueError` of the antecedent
-    (`C06.code_activationDegree`). -/
-theorem code_activateWith (c : Lang.DegCtx ℚ) (hasTerms : String → Bool) (w : X ℚ) (a : Op.ANode) :
+    translated `Antecedent.activation_degree`, `ante`): a rule that is not loaded raises `RuntimeError`; a loaded one raises
+    what the model `Op.activateWith` predicts (`ValueError`: a missing operator or term, a variable that has lost its terms)
+    and otherwise stores and returns the model's value `w × degree`, which is what `Op.Activation.activateWith` copies from
+    the field `degree` of its rule. -/
+theorem code_activateWith (c : Lang.DegCtx ℚ) (w : X ℚ) (a : Op.ANode) :
     -- what `self.antecedent.activation_degree(conjunction, disjunction)` returns or raises
     let ante : Py.M (X ℚ) :=
-      Gen.Code.Antecedent_activation_degree.run c hasTerms (Py.Deg.ofANode a) c.conj c.disj .none {} >>= fun s =>
-        Py.deref s.ret
+      Gen.Code.Antecedent_activation_degree.run c (Py.Deg.ofANode a) c.conj c.disj .none {} >>= fun s => Py.deref s.ret
     Gen.Code.Rule_activate_with.run false w ante {} = .error .runtime ∧
-    if (Py.Deg.varsOf a).all hasTerms then
-      match Op.activateWith c w a with
-      | .error k => Gen.Code.Rule_activate_with.run true w ante {} = .error k.toPy
-      | .ok d => ∃ σ, Gen.Code.Rule_activate_with.run true w ante {} = .ok σ ∧
-          σ.ret = some d ∧ σ.self_activation_degree = d ∧
-          ∀ r : Spec.Activation.Rule ℚ, r.degree = d →
-            { r with actDegree := σ.self_activation_degree } = Op.Activation.activateWith r
-    else Gen.Code.Rule_activate_with.run true w ante {} = .error .value :=
-  Op.Activation.code_activateWith c hasTerms w a
+    match Op.activateWith c w a with
+    | .error k => Gen.Code.Rule_activate_with.run true w ante {} = .error k.toPy
+    | .ok d => ∃ σ, Gen.Code.Rule_activate_with.run true w ante {} = .ok σ ∧
+        σ.ret = some d ∧ σ.self_activation_degree = d ∧
+        ∀ r : Spec.Activation.Rule ℚ, r.degree = d →
+          { r with actDegree := σ.self_activation_degree } = Op.Activation.activateWith r :=
+  Op.Activation.code_activateWith c w a
 
 /-- **Tie A.**  `Rule.trigger` (`triggered₀`: the value of the field `triggered` before the call): a rule that is not
     loaded raises `RuntimeError` (after resetting `triggered`); a loaded rule with the conclusions `cs` sets `triggered` and appends the activated terms exactly as `Op.Consequent.trigger`
